@@ -24,7 +24,7 @@ import (
 
 var ErrInjected = errors.New("injected API failure")
 
-// ListFault kinds: "" ok, "error", "canceled" (an error wrapping context.Canceled while the context is alive), "nonlist" (a Pod instead of a list), "nonobjects" (a list whose items are
+// ListFault kinds: "" ok, "error", "error+list" (the error comes with an empty non-nil list object, as from client-go's typed clients), "canceled" (an error wrapping context.Canceled while the context is alive), "nonlist" (a Pod instead of a list), "nonobjects" (a list whose items are
 // not API objects), "noaccessor" (object without list meta), "block" (returns only when ctx is cancelled).
 type ListFault struct {
 	Kind    string
@@ -40,6 +40,7 @@ type ListFault struct {
 //	      "close" close the stream after After frames | "drop" silently drop frame number After (0-based) |
 //	      "dup" deliver frame number After twice | "status" insert a Status frame before frame After |
 //	      "bookmark" insert a Bookmark frame before frame After | "errorframe" insert an Error frame (Status object) before frame After | "errorframe-obj" / "errorframe-nil" Error frame with an ordinary object / no payload |
+//	      "stale-delete" the stream starts by replaying a DELETED frame for an object that exists (lagging watch cache) |
 //	      "garbage" insert a frame whose object has no metadata before frame After (ends the session)
 type WatchFault struct {
 	Kind  string
@@ -68,6 +69,9 @@ type Server struct {
 	WatchRVs  []string
 	ListTimes []int64
 	ListRVs   []int // server version at the snapshot of every successful list
+	// StaleAtList: for every stale frame a faulty stream replayed, how many successful lists had taken their
+	// snapshot when it was delivered (a later list is needed to repair what the stale frame did)
+	StaleAtList []int
 	Inflight  int
 	MaxFlight int
 }
@@ -239,6 +243,9 @@ func (s *Server) List(ctx context.Context, opts metav1.ListOptions) (runtime.Obj
 	switch f.Kind {
 	case "error":
 		return nil, ErrInjected
+	case "error+list":
+		// what client-go's typed clients do on failure: an empty, non-nil list object together with the error
+		return &corev1.PodList{}, ErrInjected
 	case "canceled":
 		// the API reports a cancellation although the caller's context is alive (e.g. a proxy timeout surfaced as context.Canceled)
 		return nil, fmt.Errorf("list interrupted: %w", context.Canceled)
@@ -335,6 +342,26 @@ func (st *stream) pump() {
 		})
 	}()
 	f := st.fault
+	if f.Kind == "stale-delete" {
+		// a lagging watch cache replays an old DELETED frame for an object that exists: the first object by key
+		var victim *corev1.Pod
+		vs.Atomic(st.s, func() {
+			keys := make([]string, 0, len(st.s.objs))
+			for k := range st.s.objs {
+				keys = append(keys, k)
+			}
+			sort.Strings(keys)
+			if len(keys) > 0 {
+				victim = st.s.objs[keys[0]]
+			}
+		})
+		if victim != nil {
+			if !st.send(watch.Event{Type: watch.Deleted, Object: victim}) {
+				return
+			}
+			vs.Atomic(st.s, func() { st.s.StaleAtList = append(st.s.StaleAtList, len(st.s.ListRVs)) })
+		}
+	}
 	for {
 		var pending []entry
 		vs.Atomic(st.s, func() {
